@@ -15,6 +15,7 @@
 package registry
 
 import (
+	"crypto/sha256"
 	"encoding/hex"
 	"fmt"
 	"strings"
@@ -34,12 +35,11 @@ import (
 // job (the actual authorization/trust boundary), run separately and always
 // AFTER this check, never in place of it.
 func CheckCorruption(got [32]byte, want string) error {
-	want = strings.TrimPrefix(want, "sha256:")
-	wantBytes, err := hex.DecodeString(want)
-	if err != nil || len(wantBytes) != len(got) {
-		return conduiterr.New(CodeCorruptDownload, fmt.Sprintf(
-			"index sha256 %q is not a valid 64-character hex digest", want))
+	wantBytes, err := decodeDeclaredDigest(want)
+	if err != nil {
+		return err
 	}
+	want = strings.TrimPrefix(want, "sha256:")
 	for i := range got {
 		if got[i] != wantBytes[i] {
 			return conduiterr.New(CodeCorruptDownload, fmt.Sprintf(
@@ -49,4 +49,20 @@ func CheckCorruption(got [32]byte, want string) error {
 		}
 	}
 	return nil
+}
+
+// decodeDeclaredDigest parses an index-declared sha256 ("<64 hex>" with an
+// optional "sha256:" prefix) and refuses anything else with
+// CodeCorruptDownload. It is split out of CheckCorruption so stageArtifact can
+// refuse a malformed digest BEFORE the digest is used to derive a cache path
+// or a byte is fetched: a declared digest such as "../../x" must never reach
+// the filesystem layer.
+func decodeDeclaredDigest(want string) ([]byte, error) {
+	want = strings.TrimPrefix(want, "sha256:")
+	wantBytes, err := hex.DecodeString(want)
+	if err != nil || len(wantBytes) != sha256.Size {
+		return nil, conduiterr.New(CodeCorruptDownload, fmt.Sprintf(
+			"index sha256 %q is not a valid 64-character hex digest", want))
+	}
+	return wantBytes, nil
 }
